@@ -205,7 +205,10 @@ pub fn run_with_args(
     }
     if let Some(rate) = args.usd_exchange_rate {
         for tx in &mut txs {
-            if tx.currency == Currency::usd() {
+            // A currency conversion (FXT pair) already carries the rate implied
+            // by its own CAD and USD legs. That is the rate actually paid, so
+            // it is not replaced.
+            if tx.currency == Currency::usd() && tx.exchange_rate.is_none() {
                 tx.exchange_rate = Some(rate)
             }
         }
